@@ -233,15 +233,13 @@ def run(repo, harnesses, tag='default', timeout=900, jobs=4, playback=False, ext
         results[h]['wall_s'] = round(wall, 1)
     if os.environ.get('VERIF_KEEP_SCRATCH') != '1':
         shutil.rmtree(dst, ignore_errors=True)
-    if not playback:
-        # second pass, one harness at a time, to obtain concrete counterexample values
-        for h in [h for h in harnesses if results[h]['status'] == 'fail']:
-            r2 = run(repo, [h], tag + '-pb', timeout, 1, True, extra_args)
-            if r2[h]['status'] == 'fail':
-                for k in ('concrete_vals', 'playback_test'):
-                    if k in r2[h]:
-                        results[h][k] = r2[h][k]
     return results
+
+
+def playback_vals(repo, harness, tag='pb', timeout=1500):
+    """second pass for one failing harness: obtain the concrete counterexample values"""
+    r2 = run(repo, [harness], tag, timeout, 1, True)
+    return r2.get(harness, {})
 
 
 def module_of(harness):
